@@ -10,9 +10,12 @@ GO = dict(module="core", pkg="server", pkgname="server",
           files={"zz_verif_c06_test.go": "c06/c06_test.go"}, run="TestVerifC06")
 GO_E2E = dict(module="core", pkg="internal/integration_tests", pkgname="integration_tests",
               files={"zz_verif_c06e_test.go": "c06/c06_e2e_test.go"}, run="TestVerifC06E2E")
+GO_CLI = dict(module="core", pkg="client", pkgname="client",
+              files={"zz_verif_c06c_test.go": "c06/c06_client_test.go"}, run="TestVerifC06Client")
 PARAMS_NAME = "ParamsC06"
-HEADER = ("From Hy Require Import lib.Harness model.C06_Relay corr.C06_Corr.\nFrom Coq Require Import ZArith.\n"
-          "Local Open Scope N_scope.\n")
+# Strings.String first (string literals of the end-to-end cases), then everything else so that List's names win again
+HEADER = ("From Coq Require Import Strings.String.\nFrom Hy Require Import lib.Harness model.C06_Relay corr.C06_Corr.\n"
+          "From Coq Require Import ZArith.\nImport Coq.Init.Datatypes.\nLocal Open Scope N_scope.\n")
 RULE = ("seeded generator of relay histories: (a) copyTwoWayEx/copyTwoWay of the working tree driven in a synctest bubble with a scripted "
         "client stream, target and traffic logger: per direction 0-6 source segments of 0..40000 bytes (around the 32 KiB copy buffer: "
         "32767/32768/32769/40000), ending in EOF / error / silence, reads that carry data and an error together, zero reads; per-call "
@@ -146,6 +149,37 @@ def gen_req(rng, big=False):
         cut = sorted(set(rng.randrange(1, hlen) for _ in range(rng.randrange(1, 5))))
         segs = [y - x for x, y in zip([0] + cut, cut)]
     c["req"] = {"addr": addr, "pad": pad, "segs": segs, "glue": glue}
+    return c
+
+
+def gen_e2e(rng):
+    """end-to-end class: the request is what the real WriteTCPRequest writes, the dial is faked, the response is written by the real
+    WriteTCPResponse, then the relay; the client half (real client.TCP / tcpConn.Read on a QUIC stream) is served what the server half wrote"""
+    c = gen_req(rng, False)
+    up = c["up"]["reads"]
+    if c["req"]["glue"] and (not up or up[0]["n"] == 0):
+        up.insert(0, {"n": rng.choice([1, 5, 300]), "err": "", "delay": 0})
+    alen = rng.choice([3, 9, 15, 62, 63, 64, 65, 300])
+    c["req"]["addr"] = ("".join(rng.choice("abcdefghijklmnopqrstuvwxyz0123456789.-") for _ in range(max(0, alen - 4))) + ":443")[-alen:]
+    c["req"]["pad"] = 0
+    r = rng.random()
+    if r < 0.4:
+        c["req"]["segs"] = []
+    elif r < 0.5:
+        c["req"]["segs"] = [1] * rng.choice([3, 40, 700])
+    else:
+        cut = sorted(set(rng.choice([1, 2, 3, 4, 5, alen + 2, alen + 3, alen + 4, alen + 5, rng.randrange(1, alen + 70)]) for _ in range(rng.randrange(1, 5))))
+        c["req"]["segs"] = [y - x for x, y in zip([0] + cut, cut)]
+    dial_err = ""
+    if rng.random() < 0.2:
+        n = rng.choice([1, 22, 63, 64, 300, 2048])
+        dial_err = ("connect: connection refused %d " % rng.randrange(10**6) + "x" * n)[:n]
+    c["e2e"] = {"dial_err": dial_err}
+    # the client half
+    r = rng.random()
+    c["cli"] = {"fo": rng.random() < 0.5, "cutk": "all" if r < 0.6 else ("frame" if r < 0.8 else "data"), "cutr": rng.random(),
+                "chunks": rng.choice([[], [1], [7], [1, 5, 1000], [rng.randrange(1, 3000)], [40000]]),
+                "end": "fin" if rng.random() < 0.85 else "reset", "bsz": rng.choice([1, 7, 100, 4096, 32768]), "splitr": rng.random()}
     return c
 
 
@@ -323,8 +357,10 @@ def gen(rng, tier):
         cases.append(gen_relay(rng, False))
     for _ in range(14 * scale):
         cases.append(gen_relay(rng, True))
-    for _ in range(70 * scale):
+    for _ in range(45 * scale):
         cases.append(gen_req(rng, False))
+    for _ in range(30 * scale):
+        cases.append(gen_e2e(rng))
     for _ in range(6 * scale):
         cases.append(gen_req(rng, True))
     for _ in range(24 * scale):
@@ -379,6 +415,125 @@ def xto_coq(c, o):
     return "CXRelay %s %s" % (rels, tr)
 
 
+def dg32(bs):
+    h = 0
+    for b in bs:
+        h = (h * 131 + b + 1) & 0xffffffff
+    return h
+
+
+def _varint(bs, i):
+    w = 1 << (bs[i] >> 6)
+    v = bs[i] & 0x3f
+    for k in range(1, w):
+        v = v * 256 + bs[i + k]
+    return v, i + w
+
+
+def parse_req_frame(bs):
+    """(address, padding) of a request frame as written by WriteTCPRequest (glue: the model rebuilds the frame from them and
+    the check compares length and digest with what the code wrote)"""
+    _, i = _varint(bs, 0)
+    n, i = _varint(bs, i)
+    addr = bs[i:i + n]
+    n2, j = _varint(bs, i + n)
+    return addr, bs[j:j + n2]
+
+
+def parse_resp_frame(bs):
+    n, i = _varint(bs, 1)
+    msg = bs[i:i + n]
+    n2, j = _varint(bs, i + n)
+    return bs[0] == 0, msg, bs[j:j + n2]
+
+
+def cstr(bs):
+    return '"%s"%%string' % bs.decode("ascii")
+
+
+ERRK = {"": 0, "eof": 1, "err": 2, "block": 0}
+
+
+def usegs_term(hlen, req, reads):
+    """the client stream as the fake hands it out: request stretches, the first payload segment glued to the last of them or not"""
+    evs = []
+    if hlen:
+        left, hs = hlen, []
+        for n in req["segs"]:
+            if 0 < n < left:
+                hs.append(n)
+                left -= n
+        hs.append(left)
+        lo = 0
+        for n in hs:
+            evs.append([lo, n, 0, 0, 0])
+            lo += n
+    off = 0
+    first = True
+    for r in reads:
+        k = ERRK[r["err"]]
+        if first and hlen and req["glue"]:
+            evs[-1][2:] = [0, r["n"], k]
+        else:
+            evs.append([0, 0, off, r["n"], k])
+        first = False
+        off += r["n"]
+    return "[" + ";".join("USeg %d %d %d %d %d" % tuple(e) for e in evs) + "]"
+
+
+def cli_case(c, o):
+    """the client half's case, from the server half's output: it is served the first `cut` bytes of what the server half wrote"""
+    frame = bytes.fromhex(o.get("resp_hex") or "")
+    if not frame or o.get("panic") or o.get("req_err") != "nil" or not o.get("sink_down_is_prefix"):
+        return None
+    cl = c["cli"]
+    n = o["sink_down"][0]
+    total = len(frame) + n
+    if cl["cutk"] == "all":
+        cut = -1
+    elif cl["cutk"] == "frame":
+        cut = min(total, [0, 1, 2, 3, len(frame) - 1, int(cl["cutr"] * len(frame))][int(cl["cutr"] * 6) % 6])
+    else:
+        cut = len(frame) + int(cl["cutr"] * (n + 1))
+    bsz = cl["bsz"]
+    if bsz < 100 and total > 6000:
+        bsz = 100
+    ok, msg, _ = parse_resp_frame(frame)
+    return {"k": "cli", "fo": cl["fo"], "addr": c["req"]["addr"], "frame": frame.hex(), "ok": ok, "msg": msg.decode("ascii"),
+            "a": c["down"]["a"], "b": c["down"]["b"], "n": n, "cut": cut, "chunks": cl["chunks"], "end": cl["end"], "bsz": bsz}
+
+
+CLS = {"nil": 0, "dial": 100, "eof": 1, "short": 2, "invalid": 3, "reset": 4, "": 0}
+
+
+def e2e_to_coq(c, o):
+    if o.get("req_err") != "nil" or not o.get("req_hex") or not o.get("resp_hex"):
+        return None
+    hdr = bytes.fromhex(o["req_hex"])
+    resp = bytes.fromhex(o["resp_hex"])
+    addr, reqpad = parse_req_frame(hdr)
+    rok, rmsg, resppad = parse_resp_frame(resp)
+    de = c["e2e"]["dial_err"]
+    cli = "None"
+    co, cc = o.get("cli"), o.get("cli_case")
+    if co and cc and not co.get("skip") and co.get("tcp") in CLS and co.get("final") in CLS:
+        served = co["served"]
+        split = int(c["cli"]["splitr"] * (served + 1))
+        if c["cli"]["splitr"] < 0.3:
+            split = min(served, max(0, len(resp) + [-1, 0, 1][int(c["cli"]["splitr"] * 10) % 3]))
+        cli = "(Some (CObs %s %d %d %d %d %d %s %d %d %d %s))" % (
+            "true" if cc["fo"] else "false", served, 0 if cc["end"] == "fin" else 1, split, cc["bsz"],
+            CLS[co["tcp"]], cstr(co["tcp_msg"].encode()) if co["tcp"] == "dial" else '""%string', co["got"][0], co["got"][1],
+            CLS[co["final"]], cstr(co["final_msg"].encode()) if co["final"] == "dial" else '""%string')
+    tr = "[" + ";".join(obs_term(c, ev) for ev in o["trace"] if ev[0] not in ("Q", "A", "P")) + "]"
+    return "CE2E %s %s %s %d %d %d %d %s %d %d %s %s %s %d %d %s %d %d %d %d %d %d %s" % (
+        "Logged" if c["mode"] == "logged" else "Fast", cstr(addr), cstr(reqpad), len(hdr), dg32(hdr),
+        c["up"]["a"], c["up"]["b"], usegs_term(len(hdr), c["req"], c["up"]["reads"]),
+        c["down"]["a"], c["down"]["b"], usegs_term(0, None, c["down"]["reads"]),
+        "(Some %s)" % cstr(de.encode()) if de else "None", cstr(resppad), len(resp), dg32(resp),
+        tr, o["tx"], o["rx"], o["sink_up"][0], o["sink_up"][1], o["sink_down"][0], o["sink_down"][1], cli)
+
+
 def to_coq(c, o):
     if c["k"] == "e2e":
         return None       # level (b) is judged by the harness verdict only
@@ -390,9 +545,11 @@ def to_coq(c, o):
         return None
     if c.get("req") and o.get("req_err") != "nil":
         return None       # request rejected: no relay (judged by the harness verdict)
+    if c.get("e2e"):
+        return e2e_to_coq(c, o)
     # request phase ("Q": a Read before the copy started, "A": request accepted) is outside the LTS of the copy; the offsets of
     # the relay's Reads tie it in: check requires them to be consecutive from the first byte behind the request
-    tr = "[" + ";".join(obs_term(c, ev) for ev in o["trace"] if ev[0] not in ("Q", "A")) + "]"
+    tr = "[" + ";".join(obs_term(c, ev) for ev in o["trace"] if ev[0] not in ("Q", "A", "P")) + "]"
     return "CRelay %s %s true %d %d %d %d %d %d" % ("Logged" if c["mode"] == "logged" else "Fast", tr, o["tx"], o["rx"],
                                                   o["sink_up"][0], o["sink_up"][1], o["sink_down"][0], o["sink_down"][1])
 
@@ -408,6 +565,9 @@ def klass(c, o):
         return "xrelay:n=%d%s%s" % (len(c["relays"]), ":late-read" if f.get("late_reads") else "",
                                     ":chunk-in-flight-elsewhere" if f.get("inflight_across_late_read") else "")
     tags = [c["k"] + ("+req" + (":glued" if c["req"]["glue"] else "") if c.get("req") else ""), c["mode"], "ret=" + str(o.get("ret"))]
+    if c.get("e2e"):
+        co = o.get("cli") or {}
+        tags.insert(1, "e2e:%s:cli=%s/%s" % ("dial-error" if c["e2e"]["dial_err"] else "relay", co.get("tcp", "-"), co.get("final", "-")))
     if f.get("veto"):
         tags.append("veto" + ("U" if f.get("veto_U") else "") + ("D" if f.get("veto_D") else ""))
     if f.get("wfault_U") or f.get("wfault_D"):
@@ -466,9 +626,39 @@ def run(ctx):
         ib = [i for i, c in enumerate(cases) if c.get("k") == "e2e"]
         race = race or ctx_.tier == "thorough"
         ok1, o1, params, log1 = orig(ctx_, GO, [cases[i] for i in ia], tag=tag, timeout=timeout, race=race)
+        # the client half of the end-to-end class (package client) is served what the server half wrote; it runs while level (b) does
+        cli_idx, cli_cases = [], []
+        if len(o1) == len(ia):
+            for j, i in enumerate(ia):
+                if cases[i].get("e2e") and cases[i].get("cli"):
+                    cc = cli_case(cases[i], o1[j])
+                    if cc:
+                        cli_idx.append(j)
+                        cli_cases.append(cc)
+        cli_res = {}
+
+        def run_cli():
+            cli_res["r"] = orig(ctx_, GO_CLI, cli_cases, tag=tag + "_cli", timeout=timeout, race=race)
+
+        th = None
+        if cli_cases:
+            import threading
+            th = threading.Thread(target=run_cli)
+            th.start()
         ok2, o2, log2 = True, [], ""
         if ib:
             ok2, o2, _, log2 = orig(ctx_, GO_E2E, [cases[i] for i in ib], tag=tag + "_e2e", timeout=timeout, race=race)
+        if th:
+            th.join()
+            ok3, o3, _, log3 = cli_res.get("r", (False, [], None, "client half did not run"))
+            if ok3 and len(o3) == len(cli_cases):
+                for j, cc, co in zip(cli_idx, cli_cases, o3):
+                    o1[j]["cli"], o1[j]["cli_case"] = co, cc
+                    if co.get("ok") is False and o1[j].get("ok"):
+                        o1[j]["ok"], o1[j]["why"], o1[j]["detail"] = False, "client half: " + str(co.get("why")), co.get("detail")
+            else:
+                ok1 = False
+                log1 += "\nclient half (core/client) failed:\n" + log3[-3000:]
         outs = [None] * len(cases)
         if len(o1) == len(ia):
             if len(o2) != len(ib):
